@@ -4,7 +4,8 @@ Every slow-path cause reachable in the adversarial model (expired hop, unknown i
 interface, bad packet length, invalid source / destination ISD-AS, bad source host, invalid MAC -
 also after a cross-over -, invalid link-type pair / segment change, interface down on own and
 sibling links, router alerts) is provoked on the real router; each is repeated over the payload
-sizes {0, 400, 1000, 1150, 1180, 1200, 1232, 1300, 4000, 8200}, with and without HBH+E2E extension
+sizes {0, 400, 1000, 1150, 1180, 1200, 1232, 1300, 4000, 8200}, over paths of 20 / 40 / 64 hop fields (reply built at the end
+of the buffer instead of in the headroom), with and without HBH+E2E extension
 headers, with UDP / TCP / SCMP-error / SCMP-info / traceroute payloads, with SCMP authentication
 off and on.  The bytes the slow path emits are decoded by the harness's own wire reader; TLC
 (RouterStepTrace.tla, C09Keys) judges: sent back over the ingress link, addressed to the offender's
